@@ -123,6 +123,31 @@ def r_hoist_abs_read(prog, case, ex):
     return head + list(prog), 1
 
 
+def r_opaque_fee_lower_bounds(prog):
+    """Make every comparison that bounds `txn Fee` from BELOW (or pins it) opaque to tealer and to the walk oracle
+    alike: `txn Fee; C; >|>=|==|!=` and `C; txn Fee; <|<=|==|!=` get `int 0; +` after the read."""
+    out = []
+    n = 0
+    k = 0
+    while k < len(prog):
+        ins = prog[k]
+        out.append(ins)
+        if ins == ("txn", "Fee"):
+            lower = False
+            cmp_ops = ("<", "<=", ">", ">=", "==", "!=")
+            if k + 2 < len(prog) and prog[k + 1][0] in INT_PUSH and prog[k + 2][0] in cmp_ops:
+                negated = k + 3 < len(prog) and prog[k + 3][0] == "!"
+                lower = (prog[k + 2][0] in (">", ">=", "==", "!=")) != negated or prog[k + 2][0] in ("==", "!=")
+            if k >= 1 and k + 1 < len(prog) and prog[k - 1][0] in INT_PUSH and prog[k + 1][0] in cmp_ops:
+                negated = k + 2 < len(prog) and prog[k + 2][0] == "!"
+                lower = (prog[k + 1][0] in ("<", "<=", "==", "!=")) != negated or prog[k + 1][0] in ("==", "!=")
+            if lower:
+                out.extend([("int", 0), ("+",)])
+                n += 1
+        k += 1
+    return out, n
+
+
 TYPE_DIM = {"Pay": ("OnCompletion", "ApplicationID"), "Axfer": ("OnCompletion", "ApplicationID"),
             "ApplUpdateApplication": ("TypeEnum",), "ApplDeleteApplication": ("TypeEnum",)}
 DET_LABEL = {"can-close-account": "Pay", "can-close-asset": "Axfer", "is-updatable": "ApplUpdateApplication",
@@ -143,8 +168,11 @@ def fragment(v, case, reeval):
         if base is None or target not in base:
             return None
         cur = list(case.prog)
-        for name, R in (("int-field-constant-first-operand", r_swap_int_field_operands),
-                        ("end-of-program-fallthrough-not-an-exit", r_append_return)):
+        chain = [("int-field-constant-first-operand", r_swap_int_field_operands),
+                 ("end-of-program-fallthrough-not-an-exit", r_append_return)]
+        if v.get("detector") == "missing-fee-check" and v["kind"] == "reported-although-guarded":
+            chain.append(("fee-domain-keeps-no-lower-bound", r_opaque_fee_lower_bounds))
+        for name, R in chain:
             nxt, changed = R(cur)
             if not changed:
                 continue
